@@ -136,3 +136,72 @@ func runFree(c Case) (out Out) {
 	out.Gets = [][]int{row}
 	return
 }
+
+// Kind "gets": a FIXED ring (the nodes are added once, by one goroutine) and nothing but lookups afterwards:
+// len(threads) goroutines each run `mod` rounds over all probes, as fast as they can, and compare every
+// answer with the answer of the quiescent ring.  Reads do not write: on a correct ring there is no mismatch,
+// whatever the scheduling.  Reported: gets[0] = the quiescent answers, rx[0] = [lookups, mismatches,
+// "probe/got/want" of the first few].
+func runGets(c Case) (out Out) {
+	out.ID = c.ID
+	h := hash.NewConsistentHash()
+	if c.R != 0 {
+		h = hash.NewCustomConsistentHash(c.R, nil)
+	}
+	for i, n := range c.Nodes {
+		h.Add(&fnode{n.V, i})
+	}
+	probes := make([]any, len(c.Probes))
+	want := make([]int, len(c.Probes))
+	get := func(p any) int {
+		v, ok := h.Get(p)
+		if !ok {
+			return -1
+		}
+		if x, isn := v.(*fnode); isn {
+			return x.idx
+		}
+		return -3
+	}
+	for i, p := range c.Probes {
+		probes[i] = mk(p)
+		want[i] = get(probes[i])
+	}
+	out.Gets = [][]int{want}
+	var total, bad int64
+	var mu sync.Mutex
+	first := []string{}
+	var wg sync.WaitGroup
+	start := make(chan struct{})
+	for ti := range c.Threads {
+		ti := ti
+		wg.Add(1)
+		go func() {
+			defer wg.Done()
+			<-start
+			for round := uint64(0); round < c.Mod; round++ {
+				for j := range probes {
+					q := (j*(2*ti+1) + ti + int(round)) % len(probes)
+					got := -2
+					func() {
+						defer func() { recover() }()
+						got = get(probes[q])
+					}()
+					atomic.AddInt64(&total, 1)
+					if got != want[q] {
+						atomic.AddInt64(&bad, 1)
+						mu.Lock()
+						if len(first) < 5 {
+							first = append(first, fmt.Sprintf("%d/%d/%d", q, got, want[q]))
+						}
+						mu.Unlock()
+					}
+				}
+			}
+		}()
+	}
+	close(start)
+	wg.Wait()
+	out.Rx = [][]string{append([]string{strconv.FormatInt(total, 10), strconv.FormatInt(bad, 10)}, first...)}
+	return
+}
